@@ -9,7 +9,7 @@ RULE = ("histories of Library.add (single, list, fail_on_duplicate_key), remove 
         "random stream (more twins, a failed block, an implicit comment) - where arguments are universe blocks, blocks "
         "currently held (incl. duplicate wrappers) or the duplicate inside a held wrapper; calls that raise are part of "
         "the histories. All histories over a 32-call alphabet to depth 3 (quick); depth 4 over 20 calls and depth 5 "
-        "over 11 calls (thorough); random histories to depth 30. After EVERY call all eight views are compared with "
+        "over 11 calls (thorough); random histories to depth 30; corpus: the witness of the repaired strings-order defect. After EVERY call all eight views are compared with "
         "the model by object identity and checked against the property. distinct = distinct history; non-trivial = "
         "some call wraps a duplicate, raises, removes or replaces a held block")
 TRUSTED = ["object identity observed with id() on objects kept alive by the harness; wrapper objects are numbered by "
@@ -154,12 +154,6 @@ def build_universe(n):
     return out
 
 
-# A raising replace() whose rollback re-inserts a String leaves `strings` (= list(dict.values())) in another order
-# although blocks, strings_dict as a mapping and all other views are as before (Coq: C08_strings_order_refuted).
-# Such cases are reported under this finding id (exit code unaffected; the KNOWN-FINDING line is printed once the id
-# is listed in known_findings.json).  Set to None to report them as ordinary violations.
-STRINGS_ORDER_FINDING = "K5"
-
 VIEWS = ["blocks", "entries", "entries_dict", "strings", "strings_dict", "preambles", "comments", "failed_blocks"]
 
 
@@ -192,8 +186,8 @@ def check_inv(M, s):
         for b in held:
             if d[b.key] is not b:
                 return "%s_dict[%r] is not the held block" % (name, b.key)
-    if sorted(map(id, s["strings"])) != sorted(map(id, strs)):
-        return "strings is not the String blocks of blocks"
+    if not same_ids(s["strings"], strs):
+        return "strings is not the String blocks of blocks in order"
     parts = s["entries"] + s["strings"] + s["preambles"] + s["comments"] + s["failed_blocks"]
     if sorted(map(id, parts)) != sorted(map(id, bl)):
         return "entries, strings, preambles, comments, failed_blocks do not partition blocks"
@@ -212,12 +206,9 @@ def wraps(M, x, arg):
     return isinstance(x, M.DuplicateBlockKeyBlock) and x.ignore_error_block is arg and x.key == arg.key
 
 
-def views_equal(a, b, strict_strings=True):
+def views_equal(a, b):
+    """None if all eight views compare equal (lists in order, dicts as mappings), else the name of a differing view"""
     for v in VIEWS:
-        if v == "strings" and not strict_strings:
-            if not (len(a[v]) == len(b[v]) and all(x in b[v] for x in a[v]) and all(y in a[v] for y in b[v])):
-                return v
-            continue
         if a[v] != b[v]:
             return v
     return None
@@ -344,9 +335,6 @@ def impl(case):
                 if kind == "add" and op.get("fail") == 1:
                     known.append("K1")            # documented: duplicates are added, then ValueError is raised
                     tags.add("K1")
-                elif kind == "replace" and STRINGS_ORDER_FINDING and views_equal(before, after, strict_strings=False) is None:
-                    known.append(STRINGS_ORDER_FINDING)            # only the order of the `strings` view (dict order) changed
-                    tags.add("K5:strings-reordered-by-raising-replace")
                 else:
                     problems.append(where + "raised ValueError but view %s changed" % diff)
             continue
@@ -389,7 +377,7 @@ def impl(case):
     if problems:
         rec["oracle"] = {"ok": False, "detail": problems[0]}
     elif known:
-        rec["oracle"] = {"ok": False, "detail": "known finding class " + known[0], "known": "K1" if "K1" in known else known[0]}
+        rec["oracle"] = {"ok": False, "detail": "known finding class K1", "known": "K1"}
     else:
         rec["oracle"] = {"ok": True, "detail": ""}
     return rec
